@@ -39,6 +39,19 @@ def exec_op(api, op, inv, results=None):
             def body(a2, *args, **kw):
                 inv.append(['sb', op['name'], list(args)])
                 sub = [exec_op(a2, c, inv) for c in op.get('ch', [])]
+                if op.get('par'):
+                    # threads inside this subbuild's builder (the pattern of samples/parallel_seam_carving)
+                    s = sched.S
+                    if s is not None and s.active and s.tid() is not None:
+                        box = {}
+
+                        def worker(k):
+                            box[k] = [exec_op(a2, c, inv) for c in op['par'][k]]
+                        tids = [s.spawn(worker, k) for k in range(len(op['par']))]
+                        s.join(tids)
+                        sub.append([box.get(k) for k in range(len(op['par']))])
+                    else:
+                        sub.append([[exec_op(a2, c, inv) for c in ops] for ops in op['par']])
                 if op.get('mode') == 'rb':
                     raise UserError('rb')
                 return ['sb', op['name'], sub]
